@@ -96,6 +96,10 @@ type CaseSpec struct {
 	Tail  []OpSpec   `json:"tail"` // sent to the child after P5; then the parent is read again (P6)
 	// then: requests (configuration, restart, branch) followed by reads of named versions
 	Phases []PhaseSpec `json:"phases,omitempty"`
+	// the negative refs of the phases' reads are resolved once, against the version chains as they
+	// are after the requests of the first phase: every phase then reads the same versions, also
+	// when later phases create versions (gen.go: headPinPhases)
+	PinRefs bool `json:"pinrefs,omitempty"`
 	// POST query probes sent after P3 (readonly.go)
 	ROQ []ROSpec `json:"roq,omitempty"`
 }
@@ -986,15 +990,23 @@ func runCase(t *table, cs CaseSpec, run *lib.Run) string {
 
 	// phases: requests, then reads of named versions
 	phases := []string{}
-	for _, ph := range cs.Phases {
+	var pin *runner
+	for pi, ph := range cs.Phases {
 		ops := []string{}
 		for _, op := range ph.Ops {
 			ops = append(ops, r.exec(op))
 			run.Count("op:" + op.Kind)
 		}
+		if cs.PinRefs && pi == 0 {
+			pin = &runner{masters: append([]string{}, r.masters...), branches: append([]string{}, r.branches...)}
+		}
 		rds := []string{}
 		for _, rr := range ph.Reads {
-			rr.Ref = r.norm(rr.Ref)
+			if pin != nil {
+				rr.Ref = pin.norm(rr.Ref)
+			} else {
+				rr.Ref = r.norm(rr.Ref)
+			}
 			u := r.uuidOf(rr.Ref)
 			if u == "" {
 				continue
